@@ -3,6 +3,8 @@
 SPECIFICATION Spec
 CONSTANTS
   Inst = {"v1", "v2"}
+  Slots = {"v1", "v2"}
+  SameApp = FALSE
   MaxHeal = 0
   MaxVal = 2
   Allowed = {}
